@@ -52,6 +52,10 @@ func init() {
 				"the Solidity contract (truncation of each public value to 128 bits in secondHash) cannot be executed here; it is the reason values >= 2^128 matter",
 			},
 			MinEvents: 100000,
+			Setup: func(ctx *fw.Ctx) error {
+				engine.SetRealHints(false) // large must-reject sweep: native fast path for honest hints
+				return nil
+			},
 			Gen: func(ctx *fw.Ctx) []fw.Case {
 				var cs []fw.Case
 				names := []string{"A_testdata", "A_testjson"}
@@ -84,7 +88,13 @@ func init() {
 				}
 				cs = append(cs, fw.Case{ID: "A_testdata/honest/k=28", Kind: "honest", P: map[string]any{"inst": "A_testdata", "k": 28}})
 				cs = append(cs, fw.Case{ID: "A_testdata/limb0+1*p/k=28/plain", Kind: "kp", P: map[string]any{"inst": "A_testdata", "i": 0, "kk": "1", "k": 28, "face": "plain"}})
-				cs = append(cs, fw.Case{ID: "A_testdata/limb5+1*p/k=1/commit", Kind: "kp", P: map[string]any{"inst": "A_testdata", "i": 5, "kk": "1", "k": 1, "face": "commit"}})
+				for i := 0; i < 16; i++ {
+					// every limb index under the commit checker (checks are collected and issued at the end)
+					cs = append(cs, fw.Case{ID: fmt.Sprintf("A_testdata/limb%d+1*p/k=1/commit", i), Kind: "kp", P: map[string]any{"inst": "A_testdata", "i": i, "kk": "1", "k": 1, "face": "commit"}})
+					if i%5 == 0 {
+						cs = append(cs, fw.Case{ID: fmt.Sprintf("A_testdata/limb%d+1*p/k=1/plain", i), Kind: "kp", P: map[string]any{"inst": "A_testdata", "i": i, "kk": "1", "k": 1, "face": "plain"}})
+					}
+				}
 				cs = append(cs, fw.Case{ID: "A_testdata/shadow/k=1", Kind: "shadow", P: map[string]any{"inst": "A_testdata", "k": 1}})
 				return cs
 			},
@@ -232,6 +242,10 @@ func init() {
 				"visibility of the key is read from the struct tags: VerifierData carries no `gnark:\",public\"` tag in either wrapper",
 			},
 			MinEvents: 100000,
+			Setup: func(ctx *fw.Ctx) error {
+				engine.SetRealHints(false) // large must-reject sweep: native fast path for honest hints
+				return nil
+			},
 			Gen: func(ctx *fw.Ctx) []fw.Case {
 				var cs []fw.Case
 				for _, n := range instNames(ctx.Quick) {
